@@ -62,6 +62,8 @@ type verifSys struct {
 	OnNew func(w *verifWorld) []verifFinding // evaluated once in every distinct state (probes on clones)
 	// NoDedup disables state matching (stateless enumeration of all paths)
 	NoDedup bool
+	// Workers: number of parallel explorer workers (0: one per CPU). 1 when the subject is process-wide state.
+	Workers int
 }
 
 type verifViolation struct {
@@ -118,6 +120,9 @@ type verifExplorer struct {
 }
 
 func verifExplore(sys *verifSys, deadline time.Time, workers int) (verifStats, []*verifViolation) {
+	if sys.Workers > 0 {
+		workers = sys.Workers
+	}
 	if workers <= 0 {
 		workers = runtime.NumCPU()
 	}
